@@ -4,10 +4,13 @@
    frozen band, every number of Wannier functions (chosen when the gauge is initialised); the window part of wannierise step by step and then the abstract disentanglement loop. *)
 EXTENDS Disentangle
 CONSTANTS NB, GAPS, MAXIT,
-          Variant     \* "code"; "swapped" = include_degen flags exchanged (sensitivity)
+          Variant     \* "code"; "swapped" = include_degen flags exchanged (sensitivity); "dropnull" = the alignment with the
+                      \* projections drops the null directions of a rank-deficient projection matrix (sensitivity)
 
-VARIABLES E, flo, fhi, olo, ohi, extra, nw, pc, frozen, outer, free, gauge, it
-vars == <<E, flo, fhi, olo, ohi, extra, nw, pc, frozen, outer, free, gauge, it>>
+VARIABLES E, flo, fhi, olo, ohi, extra, nw, pc, frozen, outer, free, gauge, it,
+          amn      \* class of the projections on the selected bands: "full" rank, or "deficient" (a zero column, two equal columns,
+                   \* a column supported only outside the outer window); "none" before the gauge is initialised
+vars == <<E, flo, fhi, olo, ohi, extra, nw, pc, frozen, outer, free, gauge, it, amn>>
 
 RECURSIVE FromGaps(_, _)
 FromGaps(g, n) == IF n = 0 THEN <<0>> ELSE LET s == FromGaps(g, n - 1) IN Append(s, s[n] + g[n])
@@ -20,29 +23,33 @@ Init == /\ E \in Arrays
         /\ flo <= fhi /\ olo <= ohi /\ olo <= flo          \* the frozen window may stick out at the top only
         /\ extra \in {{}} \cup {{j} : j \in 1..Len(E)}
         /\ (extra # {} => (flo = olo /\ fhi = ohi))         \* keep the explicit-band cases few
-        /\ nw = 0 /\ pc = "start" /\ frozen = {} /\ outer = {} /\ free = {} /\ gauge = NoGauge /\ it = 0
+        /\ nw = 0 /\ pc = "start" /\ frozen = {} /\ outer = {} /\ free = {} /\ gauge = NoGauge /\ it = 0 /\ amn = "none"
 
 SelectFrozen == /\ pc = "start"
                 /\ frozen' = SelectWindow(E, TH, flo, fhi, Variant = "swapped")
-                /\ pc' = "frozen" /\ UNCHANGED <<E, flo, fhi, olo, ohi, extra, nw, outer, free, gauge, it>>
+                /\ pc' = "frozen" /\ UNCHANGED <<E, flo, fhi, olo, ohi, extra, nw, outer, free, gauge, it, amn>>
 SelectOuter == /\ pc = "frozen"
                /\ outer' = SelectWindow(E, TH, olo, ohi, Variant # "swapped")
-               /\ pc' = "outer" /\ UNCHANGED <<E, flo, fhi, olo, ohi, extra, nw, frozen, free, gauge, it>>
+               /\ pc' = "outer" /\ UNCHANGED <<E, flo, fhi, olo, ohi, extra, nw, frozen, free, gauge, it, amn>>
 AddFrozenStates == /\ pc = "outer"
                    /\ frozen' = frozen \cup extra
-                   /\ pc' = "added" /\ UNCHANGED <<E, flo, fhi, olo, ohi, extra, nw, outer, free, gauge, it>>
+                   /\ pc' = "added" /\ UNCHANGED <<E, flo, fhi, olo, ohi, extra, nw, outer, free, gauge, it, amn>>
 (* free = ~frozen; deselected = ~selected & free; assert selected[frozen]; free[deselected] = False *)
 ComputeFree == /\ pc = "added"
                /\ IF frozen \subseteq outer
                   THEN free' = ((1..Len(E)) \ frozen) \ (((1..Len(E)) \ outer) \cap ((1..Len(E)) \ frozen)) /\ pc' = "ready"
                   ELSE free' = {} /\ pc' = "assert_failed"
-               /\ UNCHANGED <<E, flo, fhi, olo, ohi, extra, nw, frozen, outer, gauge, it>>
-(* Kpoint_and_neighbours.__init__: U[frozen, :nf] = 1, U[free, nf:] = get_max_eig(..., nw - nf, |free|), rotate_to_projections *)
+               /\ UNCHANGED <<E, flo, fhi, olo, ohi, extra, nw, frozen, outer, gauge, it, amn>>
+(* Kpoint_and_neighbours.__init__: U[frozen, :nf] = 1, U[free, nf:] = get_max_eig(..., nw - nf, |free|), rotate_to_projections:
+   U_loc . orthogonalize(U_loc^+ amn) is the block matrix times a UNITARY num_wann x num_wann matrix also when the
+   projections are rank deficient (U V^+ of the SVD); dropping the null directions would lose a column and a frozen state *)
 InitU == /\ pc = "ready"
-         /\ \E n \in 1..Len(E) :
-              /\ nw' = n
+         /\ \E n \in 1..Len(E) : \E a \in {"full", "deficient"} :
+              /\ nw' = n /\ amn' = a
               /\ IF Feasible(Cardinality(frozen), Cardinality(frozen \cup free), n)
-                 THEN /\ gauge' = [support |-> frozen \cup free, rank |-> Cardinality(frozen) + (n - Cardinality(frozen)), captured |-> TRUE]
+                 THEN /\ LET lost == IF Variant = "dropnull" /\ a = "deficient" THEN 1 ELSE 0 IN
+                         gauge' = [support |-> frozen \cup free, rank |-> Cardinality(frozen) + (n - Cardinality(frozen)) - lost,
+                                   captured |-> (lost = 0 \/ frozen = {})]
                       /\ pc' = "running"
                  ELSE gauge' = NoGauge /\ pc' = "infeasible"
          /\ UNCHANGED <<E, flo, fhi, olo, ohi, extra, frozen, outer, free, it>>
@@ -50,9 +57,9 @@ InitU == /\ pc = "ready"
 Update == /\ pc = "running" /\ it < MAXIT
           /\ it' = it + 1
           /\ gauge' = [support |-> frozen \cup free, rank |-> gauge.rank, captured |-> gauge.captured]
-          /\ UNCHANGED <<E, flo, fhi, olo, ohi, extra, nw, pc, frozen, outer, free>>
+          /\ UNCHANGED <<E, flo, fhi, olo, ohi, extra, nw, pc, frozen, outer, free, amn>>
 Finalize == /\ pc = "running"
-            /\ pc' = "done" /\ UNCHANGED <<E, flo, fhi, olo, ohi, extra, nw, frozen, outer, free, gauge, it>>
+            /\ pc' = "done" /\ UNCHANGED <<E, flo, fhi, olo, ohi, extra, nw, frozen, outer, free, gauge, it, amn>>
 Next == SelectFrozen \/ SelectOuter \/ AddFrozenStates \/ ComputeFree \/ InitU \/ Update \/ Finalize
 Spec == Init /\ [][Next]_vars
 
